@@ -24,7 +24,7 @@ def requests(trace):
 def check(run, replay=None):
     import concurrent.futures as cf
     tier = run.tier
-    coq_ok = C.standard_coq_phase(run, CID, gens=["sites"])
+    coq_ok = C.standard_coq_phase(run, CID, gens=["sites", "ops", "reduce"])
     ok, msg = C.ensure_ocaml()
     if not ok:
         run.finding("build:ocaml", "broken-obligation", msg, {})
